@@ -356,10 +356,18 @@ fn oracle_step(w: &World, ctx: &mut Ctx, resps: &[(u64, String)], _act: &str) {
 fn applicable(w: &mut World, act: &str) -> bool {
     let toks = parked_tokens(w);
     let (parts, running) = { let n = w.node.lock().unwrap(); (n.parts_of(&w.hash_hex), n.pay_running.get(&w.hash_hex).copied().unwrap_or(0) > 0) };
-    if let Some(t) = act.strip_prefix("s:") { return toks.iter().any(|x| x.1 == t && !x.2); }
+    if let Some(t) = act.strip_prefix("s:") {
+        // E4: a waitsendpay is answered only once its part has left `pending`
+        if t.starts_with('w') && !t.starts_with("ws") && !t.starts_with("wa") { let id: u64 = t[1..].split('#').next().unwrap_or("").parse().unwrap_or(u64::MAX); if parts.iter().any(|p| p.id == id && p.st == PSt::Pending) || !parts.iter().any(|p| p.id == id) { return false; } }
+        return toks.iter().any(|x| x.1 == t && !x.2);
+    }
     if let Some(t) = act.strip_prefix("d:") { return toks.iter().any(|x| x.1 == t && x.2); }
     if act.len() > 3 && act.starts_with('f') && &act[2..3] == ":" { let t = &act[3..]; return toks.iter().any(|x| x.1 == t && !x.2); }
-    if act.starts_with("pe:") { return running && toks.iter().any(|x| x.1 == "pay" && !x.2); }
+    if let Some(k) = act.strip_prefix("pe:") {
+        // E3: a COMPLETE reply carries the preimage of a part that is complete
+        if let Some(x) = k.strip_prefix("complete") { let x: u64 = x.parse().unwrap_or(u64::MAX); if !parts.iter().any(|p| p.st == PSt::Complete(x)) { return false; } }
+        return running && toks.iter().any(|x| x.1 == "pay" && !x.2);
+    }
     if act.starts_with("ar:") || act.starts_with("tm") || act.starts_with("tw") || act.starts_with("tb") || act.starts_with("bl") || act == "cr" { return true; }
     if let Some(id) = act.strip_prefix("c") { return running && id.parse::<u64>().map(|i| !parts.iter().any(|p| p.id == i)).unwrap_or(false); }
     if let Some(rest) = act.strip_prefix("r") { let id: u64 = rest.split(':').next().unwrap_or("").parse().unwrap_or(u64::MAX); return parts.iter().any(|p| p.id == id && p.st == PSt::Pending); }
@@ -881,6 +889,24 @@ fn enumerate_restart_clock(ctx: &mut Ctx, rng: &mut Rng, sock: &str) {
     }
 }
 
+/// the chain advances while a set is being collected until the earliest held expiry is closer than /
+/// exactly at / just beyond the safety delta when the payment is initiated (C04: the delay granted must be
+/// floored at zero, never the policy delta)
+fn enumerate_height(ctx: &mut Ctx, rng: &mut Rng, sock: &str) {
+    let nd = 1_006_000u64;
+    for open in [false, true] {
+        for d in [0u32, 1, 10, 33, 34, 35, 36, 100, 178] {
+            // first part: expiry 1300 (height 1000); the chain then advances to 1300 - d; the second part completes the set
+            let sc: Vec<String> = vec![
+                format!("ar:0:1000000:{}:1300:300:{}", nd / 2, nd), "s:dl".into(), "d:dl".into(),
+                format!("bl{}", 1300 - d),
+                format!("ar:0:1000000:{}:{}:{}:{}", nd - nd / 2, 1300 - d + 500, 500, nd)];
+            let g = Gen { faults_w: false, faults_r: false, crashes: false, lost: false, replay: false, coop: Some(true), other: false, other_depth: 0, hold_first: 0, select_seed: None };
+            run_case(ctx, rng, sock, open, default_cfg(), sc, 40, &g); ctx.count("enum:height-near-expiry");
+        }
+    }
+}
+
 pub fn run(mut ctx: Ctx) {
     let mut rng = Rng::new(ctx.seed);
     let sock = format!("{}/system.sock", ctx.dir);
@@ -901,6 +927,7 @@ pub fn run(mut ctx: Ctx) {
     enumerate_overlap(&mut ctx, &mut rng, &sock);
     enumerate_restart(&mut ctx, &mut rng, &sock);
     enumerate_restart_clock(&mut ctx, &mut rng, &sock);
+    enumerate_height(&mut ctx, &mut rng, &sock);
     if ctx.thorough { enumerate_faults(&mut ctx, &mut rng, &sock, true); }
     let n = if ctx.thorough { 6000 } else { 300 };
     for i in 0..n {
